@@ -88,6 +88,9 @@ func refAr(b []byte) (entries []arRefEntry, end string) {
 		e.name = strings.TrimSuffix(strings.TrimSpace(string(h[0:16])), "/")
 		e.mode = strings.TrimSpace(string(h[40:48]))
 		e.off = off + 60
+		if e.off+e.size > int64(len(b)) {
+			return entries, "error" // the data is cut short: a reader could not deliver size bytes
+		}
 		entries = append(entries, e)
 		off += 60 + e.size + e.size%2
 	}
@@ -163,7 +166,8 @@ func arConcrete(p *Prog) *arBounded {
 			}
 		}
 		if v.text == "9999999999" {
-			continue // a size beyond the end of the archive: not decided (DESIGN)
+			add("size column 9999999999 on 4 bytes of data", "TRUNC", buildAr(G, []arMember{good("first", 2), m}))
+			continue
 		}
 		add(fmt.Sprintf("column %s = %q", v.col, v.text), "COLS", buildAr(G, []arMember{good("first", 2), m, good("after", 1)}))
 	}
@@ -191,6 +195,16 @@ func arConcrete(p *Prog) *arBounded {
 	// archive that ends right after odd-sized data (no padding byte)
 	odd := buildAr(G, []arMember{good("first", 4), good("odd", 5)})
 	add("archive ending right after the data of an odd-sized last member", "LAST", odd[:len(odd)-1])
+	// archives cut inside the data of the last member
+	for _, sz := range []int{1, 2, 5, 6} {
+		whole := buildAr(G, []arMember{good("first", 4), good("cut", sz)})
+		end := 8 + 60 + 4 + 60 + sz
+		for _, have := range []int{0, sz / 2, sz - 1} {
+			if have < sz {
+				add(fmt.Sprintf("last member records %d bytes, %d present", sz, have), "TRUNC", whole[:end-sz+have])
+			}
+		}
+	}
 
 	for _, tc := range cases {
 		res.nArchives++
